@@ -377,6 +377,43 @@ theorem fs_fault_safe (name rnd : String) (chunks : List Bytes) (d : Dir) (f : F
 example : dumpRun "e.x.tmp" "e" [[7], [8]] (.atWrite 1 (mroOf "OSError")) dumpSteps [("e", [1])] = ([("e", [1])], some (mroOf "OSError")) := by decide
 example : dumpRun "e.x.tmp" "e" [[7], [8]] (.atReplace (mroOf "FileNotFoundError")) dumpSteps [("e", [1])] = ([("e", [1])], none) := by decide
 
+/-! ### file-system errors while a template is loaded -/
+
+/-- **rename failure is a miss, for EVERY `OSError`**: whatever class the operating system reports for the failing
+    `os.replace` (IsADirectoryError for a directory at the entry's path, EXDEV, EIO, ENOSPC, EROFS, …: anything with
+    `OSError` among its bases), `dump_bytecode` with the handlers read from the source returns normally, the entry keeps its
+    previous content and no temporary stays.  Narrowing the handler's tuple breaks this proof. -/
+theorem replace_oserror_is_miss (name rnd : String) (chunks : List Bytes) (d : Dir) (e : Exc)
+    (hos : "OSError" ∈ e) (hb : "BaseException" ∈ e) :
+    let tmp := tmpName name rnd (tmpSuffix dumpSteps)
+    let r := dumpRun tmp name chunks (.atReplace e) dumpSteps d
+    d.get tmp = none → r.2 = none ∧ r.1.get name = d.get name ∧ r.1.get tmp = none := by
+  intro tmp r hfresh
+  have h := fs_fault_safe name rnd chunks d (.atReplace e) hfresh (fun e' he' => by
+    simp only [faultExc, Option.some.injEq] at he'; subst he'; exact hb)
+  simp only [hos, if_true] at h
+  exact ⟨h.2.2.2, h.2.2.1, h.2.1⟩
+
+/-- counterexample finder for `replace_oserror_is_miss` over the operating system's error classes: those a failing
+    rename would let escape from `dump_bytecode` -/
+def replaceEscapes : List String :=
+  osErrorClasses.filter (fun c => (dumpRun "t" "e" [] (.atReplace (mroOf c)) dumpSteps []).2.isSome)
+
+theorem no_replace_escapes : replaceEscapes = [] := by decide
+
+/-- `load_bytecode` treats a missing entry, a directory at the entry's path and an unreadable entry as a miss (the three
+    classes are in the handler around `open`, re-read from the source); together with `replace_oserror_is_miss` a directory
+    sitting at the entry's path never makes a load fail -/
+theorem open_obstacles_are_misses :
+    ∀ c ∈ ["FileNotFoundError", "IsADirectoryError", "PermissionError"],
+      fsOpenFails (Code := Nat) fsOpenCaught (mroOf c) = .miss := by decide
+
+/-- the `OSError` classes that `open` in `load_bytecode` would let escape (finder; what the fault runs report per class) -/
+def openEscapes : List String :=
+  osErrorClasses.filter (fun c => fsOpenFails (Code := Nat) fsOpenCaught (mroOf c) != .miss)
+
+example : (dumpRun "e.x.tmp" "e" [[7]] (.atReplace (mroOf "IsADirectoryError")) dumpSteps [("e", [1])]).2 = none := by decide
+
 /-! ### history_fresh -/
 
 section History
